@@ -71,6 +71,7 @@ class Sched:
         self.preempt_landed = []   # (n, label) of preemptions that actually switched
         self._results = []
         self._threads = []
+        self.atomic = {}           # task name -> nesting depth of 'no preemption' regions
 
     # ---- helpers (call with cv held)
     def _me(self):
@@ -94,6 +95,8 @@ class Sched:
         me = self._me()
         if me is None:
             return
+        if self.atomic.get(me):
+            return            # inside a region the harness executes without preemption
         with self.cv:
             if self.deadlocked:
                 raise Deadlock('deadlock')
@@ -312,3 +315,20 @@ def enable():
 def disable():
     interpose.HOOK = None
     interpose.LOCK_FACTORY = None
+
+
+class no_preemption:
+    """Context manager: the calling task is not preempted inside (it can still block on a lock)."""
+
+    def __enter__(self):
+        s = ACTIVE
+        self._s = s
+        self._me = s._me() if s is not None else None
+        if self._me is not None:
+            s.atomic[self._me] = s.atomic.get(self._me, 0) + 1
+        return self
+
+    def __exit__(self, *a):
+        if self._me is not None:
+            self._s.atomic[self._me] -= 1
+        return False
